@@ -6,10 +6,8 @@ Property theorems only, about the exception-flow skeleton `Paroxy.Collect.collec
 directories and all taxonomies. What CPython's tokenizer and parser actually raise on a given text is
 outside the model: the harness records it and the model predicts abort vs record.
 
-On the current tree the full statement `C14_every_file_reported` is FALSE: `list_programs` calls
-`Cleanup.run` outside any `try`, so an exception of the tokenizer (`--cleanup full`) aborts the whole
-collection (`C14_every_file_reported_counterexample`); it is proved under the extra hypothesis that
-cleaning raises on no file (`C14_every_file_reported_partial`), e.g. for `--cleanup none`.
+Since fix c7d362e (`Cleanup.safe_full_cleaning` absorbs every exception of the cleaning) the full
+statement `C14_every_file_reported` is a theorem: no hypothesis on `clean` at all.
 -/
 import Paroxy.Proofs.Collect
 import Paroxy.Props.C11
@@ -19,40 +17,62 @@ open Paroxy Paroxy.DB Paroxy.Collect
 variable {Tree : Type} {X : Ext Tree} {toTaxa : Name → List Label → List Taxon}
   {files : List (Name × Name)}
 
-/-- **C14 (abort or record).** `collect` returns a database exactly when cleaning raises on no file,
-the parser wrapper raises on no file, and every direct internal import names a collected path
-(the last clause is the open finding F21 of C11); otherwise it aborts without any record. -/
+/-- **C14 (abort or record).** `collect` returns a database exactly when the parser wrapper raises on
+no file and every direct internal import names a collected path — whatever `clean` does: since fix
+c7d362e an exception of the cleaning is absorbed (`safeClean`). -/
 theorem C14_collect_ok_iff :
     (∃ db, collect X toTaxa files = .ok db) ↔
-      CleanOk X files ∧ ParseOk X (files.map fun f => (f.1, srcOf X f)) ∧
-        Resolved (progsOf X files) := by
+      ParseOk X (files.map fun f => (f.1, srcOf X f)) ∧ Resolved (progsOf X files) := by
   constructor
   · rintro ⟨db, h⟩
-    obtain ⟨hc, hp, hm⟩ := collect_ok h
-    exact ⟨hc, hp, C11.makeDb_ok_iff.mp ⟨db, hm⟩⟩
-  · rintro ⟨hc, hp, hr⟩
+    obtain ⟨hp, hm⟩ := collect_ok h
+    exact ⟨hp, C11.makeDb_ok_iff.mp ⟨db, hm⟩⟩
+  · rintro ⟨hp, hr⟩
     obtain ⟨db, hm⟩ := (C11.makeDb_ok_iff (toTaxa := toTaxa)).mpr hr
-    exact ⟨db, collect_of hc hp hm⟩
+    exact ⟨db, collect_of hp hm⟩
 
-/-- Full statement (a `def`, not provable on the current tree): whatever `clean` and `parse` do —
-`parse` raising only the classes the code catches — every file is reported. -/
-def C14_every_file_reported : Prop :=
-  ∀ (Tree : Type) (X : Ext Tree) (toTaxa : Name → List Label → List Taxon)
-    (files : List (Name × Name)),
-    ParseCaught X → FeaturesTotal X → (files.map (·.1)).Nodup → Resolved (progsOf X files) →
-    ∃ db, collect X toTaxa files = .ok db ∧ Reported X toTaxa files db
+/-- The labels the parser wrapper returns never have the `import_internally:` form. -/
+theorem rawLabels_progsOf (hp : ParseCaught X) (hpl : FeaturesPlain X) :
+    RawLabels (progsOf X files) := by
+  intro p hpm l hl
+  obtain ⟨f, -, rfl⟩ := List.mem_map.mp hpm
+  simp only [progOf, labelsD] at hl
+  cases hpp : parseProgram X (srcOf X f) with
+  | error e => rw [hpp] at hl; cases hl
+  | ok ls =>
+    rw [hpp] at hl
+    simp only at hl
+    unfold parseProgram at hpp
+    cases hx : X.parse (srcOf X f) with
+    | error e =>
+      rw [hx] at hpp
+      simp only [(hp _ e hx).1, if_true, Except.ok.injEq] at hpp
+      rw [← hpp, List.mem_singleton] at hl
+      rw [hl]
+      simp [astLabel, sAst, sInternalPrefix, sImport, dropPrefix?]
+    | ok t =>
+      rw [hx] at hpp
+      simp only at hpp
+      split at hpp
+      · simp only [Except.ok.injEq] at hpp
+        rw [← hpp, List.mem_singleton] at hl
+        rw [hl]
+        simp [emptyLabel, astLabel, sAst, sInternalPrefix, sImport, dropPrefix?]
+      · exact hpl _ t ls hpp l hl
 
-/-- **C14 (every file reported), partial: cleaning does not raise.** Then `collect` returns a database
-with exactly one record per file, in order; the record of a file whose `parse` fails with `E` holds
-the single label `ast_construction:E` on lines `1..(number of newlines + 1)` and, as taxa, the
-taxonomy's answer on that single label; an empty file likewise with `EmptyProgramError` on `(0, 0)`. -/
-theorem C14_every_file_reported_partial (hc : CleanOk X files) (hp : ParseCaught X)
-    (hf : FeaturesTotal X) (hn : (files.map (·.1)).Nodup) (hr : Resolved (progsOf X files)) :
+/-- **C14 (every file reported).** For all files and ALL behaviours of `clean` (it may raise anything)
+and of `parse` (raising only the classes the code catches), `collect` returns a database with exactly
+one record per file, in order; the record of a file whose `parse` fails with `E` holds the single label
+`ast_construction:E` on lines `1..(number of newlines + 1)` and, as taxa, the taxonomy's answer on that
+single label; an empty file likewise with `EmptyProgramError` (same lines, fix 57ac228). -/
+theorem C14_every_file_reported (hp : ParseCaught X) (hf : FeaturesTotal X) (hpl : FeaturesPlain X)
+    (hn : (files.map (·.1)).Nodup) :
     ∃ db, collect X toTaxa files = .ok db ∧ Reported X toTaxa files db := by
+  have hr : Resolved (progsOf X files) := resolved_of_rawLabels (rawLabels_progsOf hp hpl)
   obtain ⟨db, hm⟩ := (C11.makeDb_ok_iff (toTaxa := toTaxa)).mpr hr
   have hpo : ParseOk X (files.map fun f => (f.1, srcOf X f)) :=
     fun f _ => parseProgram_total hp hf f.2
-  refine ⟨db, collect_of hc hpo hm, ?_⟩
+  refine ⟨db, collect_of hpo hm, ?_⟩
   have hpaths : pathsOf (progsOf X files) = files.map (·.1) := by
     simp [pathsOf, progsOf, progOf, List.map_map, Function.comp_def]
   have hn' : (pathsOf (progsOf X files)).Nodup := by rw [hpaths]; exact hn
@@ -77,53 +97,35 @@ theorem C14_every_file_reported_partial (hc : CleanOk X files) (hp : ParseCaught
       simp only [recordOf, hl, preparedLabels_single, astLabel, preparedSpans_single, Span3.poor]
       constructor <;> first | rfl | trivial
     · intro t ht hemp
-      have hl : labelsOf (internalOf (progsOf X files)) (progOf X f) = [emptyLabel] := by
+      have hl : labelsOf (internalOf (progsOf X files)) (progOf X f) = [emptyLabel (srcOf X f)] := by
         simp only [labelsOf, progOf, labelsD, parseProgram_empty ht hemp, relabel,
           List.map_cons, List.map_nil]
-        simp only [emptyLabel, relabelName_ast _ sEmpty_noColon]
-      simp only [recordOf, hl, preparedLabels_single, emptyLabel, preparedSpans_single, Span3.poor]
+        simp only [emptyLabel, astLabel, relabelName_ast _ sEmpty_noColon]
+      simp only [recordOf, hl, preparedLabels_single, emptyLabel, astLabel, preparedSpans_single,
+        Span3.poor]
       constructor <;> first | rfl | trivial
 
-/-- **C14 (a raising `clean` aborts everything).** If cleaning raises on one file of the directory,
-`collect` returns no database at all — whatever the other files are. -/
-theorem C14_clean_raises_aborts {f : Name × Name} {e : Exc} (hf : f ∈ files)
-    (he : X.clean f.2 = .error e) : ∃ e', collect X toTaxa files = .error e' :=
-  collect_aborts hf he
+/-- **C14 (a raising `clean` is harmless).** When the cleaning raises on a file, the stored source of
+that file is the uncleaned text (after hint handling), and the file is reported like any other — by
+`C14_every_file_reported`, which has no hypothesis on `clean`. -/
+theorem C14_clean_raise_fallback {f : Name × Name} {e : Exc} (he : X.clean f.2 = .error e) :
+    srcOf X f = X.prepare f.2 := by
+  simp [srcOf, cleanD, safeClean, he]
 
 def exPath : Name := [97, 46, 112, 121] -- "a.py"
 def tokenError : Exc := { name := [84, 111, 107, 101, 110, 69, 114, 114, 111, 114], caught := false }
 
-/-- The witness: one file, a tokenizer that raises `TokenError`, a parser that would have reported. -/
+/-- The witness of the repaired finding F06: one file, a tokenizer that raises `TokenError`. -/
 def badExt : Ext Unit :=
   { clean := fun _ => .error tokenError, prepare := id, parse := fun _ => .ok (),
     isEmpty := fun _ => true, features := fun _ _ => .ok [] }
 
-theorem badExt_directD : directD (progsOf badExt [(exPath, [])]) = [(exPath, [])] := by decide
-
-/-- **Counterexample**: the full statement fails as soon as `clean` raises (finding 6: a file such
-as `x = (1,` under `--cleanup full` makes `generate_tokens` raise `TokenError`). -/
-theorem C14_every_file_reported_counterexample : ¬ C14_every_file_reported := by
-  intro h
-  have hres : Resolved (progsOf badExt [(exPath, [])]) := by
-    intro p q hpq
-    unfold Imports Direct at hpq
-    rw [badExt_directD] at hpq
-    unfold succs at hpq
-    simp only [get?] at hpq
-    split at hpq <;> simp at hpq
-  obtain ⟨db, hdb, -⟩ := h Unit badExt (fun _ _ => []) [(exPath, [])]
-    (fun src e he => by simp [badExt] at he) (fun src t => ⟨[], rfl⟩) (by decide) hres
-  obtain ⟨e', he'⟩ := C14_clean_raises_aborts (X := badExt) (toTaxa := fun _ _ => [])
-    (files := [(exPath, [])]) (f := (exPath, [])) (e := tokenError) List.mem_cons_self rfl
-  rw [he'] at hdb
-  cases hdb
-
-/-- Non-vacuity of the partial theorem: the same directory with a cleaning that does not raise
-satisfies every hypothesis. -/
-example : CleanOk { badExt with clean := fun s => .ok s } [(exPath, [])] ∧
-    ParseCaught { badExt with clean := fun s => .ok s } ∧
-    FeaturesTotal { badExt with clean := fun s => .ok s } :=
-  ⟨fun f _ => ⟨f.2, rfl⟩, fun src e he => by simp [badExt] at he, fun src t => ⟨[], rfl⟩⟩
+/-- Non-vacuity: the externals of the former counterexample (every cleaning raises `TokenError`)
+satisfy all the hypotheses, so the file is reported. -/
+example : ∃ db, collect badExt (fun _ _ => []) [(exPath, [])] = .ok db ∧
+    Reported badExt (fun _ _ => []) [(exPath, [])] db :=
+  C14_every_file_reported (fun src e he => by simp [badExt] at he) (fun src t => ⟨[], rfl⟩)
+    (fun src t ls h l hl => by simp [badExt] at h; rw [h] at hl; cases hl) (by decide)
 
 /-- **C14 (others unaffected).** Removing a file `b` from the directory does not change the record of
 any other file `g`, provided no label of `g` names `b`'s module (the relabelling of internal imports
@@ -135,8 +137,8 @@ theorem C14_others_unaffected {db db' : Db} {b : Name}
     ∀ g ∈ files, g.1 ≠ b → NotImporting X g b →
       get? db'.programs g.1 = get? db.programs g.1 := by
   intro g hg hgb hni
-  obtain ⟨-, -, hm⟩ := collect_ok h
-  obtain ⟨-, -, hm'⟩ := collect_ok h'
+  obtain ⟨-, hm⟩ := collect_ok h
+  obtain ⟨-, hm'⟩ := collect_ok h'
   have hpaths : ∀ fs : List (Name × Name), pathsOf (progsOf X fs) = fs.map (·.1) := by
     intro fs; simp [pathsOf, progsOf, progOf, List.map_map, Function.comp_def]
   have hn1 : (pathsOf (progsOf X files)).Nodup := by rw [hpaths]; exact hn
@@ -206,7 +208,8 @@ theorem C14_tag_reports (hp : ParseCaught X) (hf : FeaturesTotal X) (src : Name)
       tagMain X toTaxa src = .ok ([astLabel e.name (X.prepare src)],
         toTaxa [] [astLabel e.name (X.prepare src)])) ∧
     (∀ t, X.parse (X.prepare src) = .ok t → X.isEmpty t = true →
-      tagMain X toTaxa src = .ok ([emptyLabel], toTaxa [] [emptyLabel])) := by
+      tagMain X toTaxa src = .ok ([emptyLabel (X.prepare src)],
+        toTaxa [] [emptyLabel (X.prepare src)])) := by
   refine ⟨?_, ?_, ?_⟩
   · obtain ⟨ls, hls⟩ := parseProgram_total hp hf (X.prepare src)
     exact ⟨_, by unfold tagMain; rw [hls]⟩
